@@ -259,26 +259,31 @@ def run(ctx, chk):
 
 
 def bound_names(G, p):
-    """RHS symbol index -> name under which the production's own (main user) action sees it"""
-    a = G.actions[p["action"]]
+    """RHS symbol index -> name under which the production's own (main user) action sees it.
+    Inline wrappers (lookarounds, optional symbols) are flattened recursively."""
     out = {}
-    if a["kind"] == "user":
-        for i, n in enumerate(a["arg_names"]):
-            out[i] = n
-        return out
-    if a["kind"] != "inline":
-        return out
-    main = G.actions[a["action"]]
-    if main["kind"] != "user":
-        return out
-    pos = 0
-    for j, s in enumerate(a["symbols"]):
-        if "orig" in s:
-            if j < len(main["arg_names"]):
-                out[pos] = main["arg_names"][j]
-            pos += 1
-        else:
-            pos += len(s["syms"])
+
+    def walk(idx, positions):
+        a = G.actions[idx]
+        if a["kind"] == "user":
+            for n, pos in zip(a["arg_names"], positions):
+                if pos is not None:
+                    out[pos] = n
+            return
+        if a["kind"] != "inline":
+            return
+        rest = list(positions)
+        inner = []
+        for s in a["symbols"]:
+            if "orig" in s:
+                inner.append(rest.pop(0) if rest else None)
+            else:
+                for _ in s["syms"]:
+                    if rest:
+                        rest.pop(0)
+                inner.append(None)
+        walk(a["action"], inner)
+    walk(p["action"], list(range(len(p["symbols"]))))
     return out
 
 
